@@ -26,7 +26,7 @@ CHECKS = {
  'C12': dict(technique=L, design='DESIGN.md 5 (C12/C13)',
    text='Complete (backend x vector type x operation) grid required by the Machine trait bounds: each operation of each of the six backends executed symbolically on 512-bit symbolic operands and proved equal to its scalar meaning; panicking operations are violations.'),
  'C13': dict(technique=L, design='DESIGN.md 5 (C12/C13)',
-   text='Same grid for data movement: insert/extract at every index, to_lanes/from_lanes, to_scalars, transpose4, LE/BE byte loads and stores, storage round trips, on every backend.'),
+   text='Same grid for data movement: insert/extract at every index, to_lanes/from_lanes, to_scalars, transpose4, LE/BE byte loads and stores, storage round trips, on every backend; and the u128xN -> u32x4xN / u64x2xN From conversions the five x86 machines declare between their vector types (bit-identical reinterpretation).'),
  'C14': dict(technique=L, design='DESIGN.md 5 (C14)',
    text='For each double-round count 0..=10 and each build (std run-time dispatch with the CPU-feature word symbolic, no_simd, 5 no-std target-feature builds in thorough), refill4 / 4 x refill / refill are executed symbolically from the optimised IR with key, stream id and 64-bit counter symbolic and proved equal to the reference block function at counters c..c+3 and final state c+4 (c+1); the overflow-checked build is explored for reachable panics.'),
  'C15': dict(technique=L, design='DESIGN.md 5 (C15)',
@@ -37,8 +37,8 @@ CHECKS = {
    text='JH-224/256/384/512: 42 per-round lemmas per dispatcher arm, the real f8 cut into 42 slices at SSA values matched by simulation signature (each slice = the nibble-oriented round of the submission), and the padding / length framing with f8 uninterpreted, including one step from an arbitrary (state, data length).'),
  'C07': dict(technique=L, design='DESIGN.md 5 (C07)',
    text='Groestl-224/256/384/512 full digests for symbolic messages over the padding-boundary length classes and one step from an arbitrary (chaining value, block counter), on the AES-NI, SSSE3 and SSE2 arms; the AES S-box is an uninterpreted function shared by both sides.'),
- 'C08': dict(technique='symbolic execution of the Digest API call sequences with the compression functions uninterpreted (Skein: real core); the digest terms of the split / cloned / reset runs are compared with the one-shot term', design='DESIGN.md 5 (C08)',
-   text='For all 15 hash types: update in three pieces, clone mid-stream (also after whole blocks were compressed), reset, Digest::finalize_reset and the in-place FixedOutput::finalize_fixed_reset then reuse, each against the one-shot digest of the concatenation, for a set of piece lengths around every buffer boundary and buffer fills; message bytes symbolic.'),
+ 'C08': dict(technique='symbolic execution of the Digest API call sequences with the compression functions uninterpreted (Skein: real core); the digest terms of the split / cloned / reset runs (and of a reset from an arbitrary symbolic state) are compared with the one-shot term; counterexample candidates come from the solver or from evaluation under a pseudo-random interpretation of the uninterpreted functions and are replayed natively', design='DESIGN.md 5 (C08)',
+   text='For all 15 hash types: update in three pieces, clone mid-stream (also after whole blocks were compressed), reset, Digest::finalize_reset and the in-place FixedOutput::finalize_fixed_reset then reuse, each against the one-shot digest of the concatenation, for a set of piece lengths around every buffer boundary and buffer fills plus one long (512-byte) piece; and one reset step from an ARBITRARY internal state (chaining value and every counter symbolic, set through the cfg hooks): reset, finalize_reset and finalize_fixed_reset must each leave an instance that hashes like a new one. Message bytes symbolic.'),
  'C16': dict(technique='memory-access monitor inside the symbolic execution of the optimised IR: every caller slice is an object with exact bounds, alignment 1 and a symbolic base address', design='DESIGN.md 5 (C16)',
    text='Byte-slice entries of every algorithm and backend (ChaCha apply, hash update/finalize, JH f8, Threefish blocks, vector read/write LE/BE): every load / store / memcpy is shown to lie inside its object, to declare no more alignment than the object guarantees at that offset, no result term mentions a base-address variable, no panic is selected by an address, and read_le/read_be/write_le/write_be handed a slice of the wrong length (object of exactly that many bytes) never access outside it.'),
  'C17': dict(technique=L + '; the length counters are symbolic over their full width', design='DESIGN.md 5 (C17)',
